@@ -107,6 +107,19 @@ def narrow_min_cases(ctx):
     ctx.region("leaf_at_narrow_type_minimum")
     return out
 
+def range_twins(ctx):
+    """pairs of models with generated ids that differ only in the declared range of an integer leaf (a generated id names the
+    children, the threshold and the sign, not the children's ranges): each is queried after the other was, in the same process"""
+    out = []
+    b = LEAF("b")
+    for (l1, h1), (l2, h2) in (((3, 5), (0, 5)), ((0, 5), (3, 5)), ((-2, 1), (0, 1)), ((0, 1), (0, 3)), ((1, 1), (0, 1)), ((-1, 2), (2, 4))):
+        for mk in (lambda n: _R("AtLeast", n, v=3, s=1), lambda n: _R("AtLeast", n, b, v=2, s=1), lambda n: _R("Any", _R("AtLeast", n, b, v=2, s=1), b),
+                   lambda n: _R("AtLeast", n, b, v=-1, s=-1), lambda n: _R("All", _R("AtLeast", n, v=1, s=1), _R("Not", _R("AtLeast", n, b, v=3, s=1)))):
+            r1, r2 = mk(LEAF("n", l1, h1)), mk(LEAF("n", l2, h2))
+            out.append({"recipe": r2, "prelude": [r1], "src": "handmade"})
+    ctx.region("range_twin_in_same_process")
+    return out
+
 def edit_twins(ctx):
     """pairs of models that differ in one named rule only (an edited rule set, rebuilt in the same process): each one is checked
     after the other one has been built and encoded"""
@@ -169,6 +182,15 @@ def run_c03(ctx):
     cases += empty_cases(ctx, ["C03"], n_over=2)
     cases += random_cases(ctx, 300 if q else 4000, REGIONS + ["prefixed_compound"], max_box=128, prefix=0.2)
     cases += [dict(c, n_over=2) for c in narrow_min_cases(ctx)]
+    cases += [dict(c, n_over=1) for c in range_twins(ctx)]
+    # one dictionary used for two models with different leaves; integer leaves whose range contains -1 and -2
+    a_, b_, x_, y_ = LEAF("a"), LEAF("b"), LEAF("x"), LEAF("y")
+    t2 = LEAF("t", -2, 1)
+    for r1, r2 in ((_R("All", a_, _R("Any", b_, t2, id="B"), id="A"), _R("Any", x_, _R("All", y_, a_, id="Q"), id="P")),
+                   (_R("AtLeast", t2, a_, b_, v=-1, s=1, id="N"), _R("AtLeast", x_, t2, v=0, s=-1, id="M")),
+                   (_R("Xor", a_, b_, t2), _R("Imply", x_, y_))):
+        cases.append({"recipe": r1, "prelude": [r2], "src": "handmade", "n_over": 1})
+        cases.append({"recipe": r2, "prelude": [r1], "src": "handmade", "n_over": 1})
     ctx.pmap(drivers.drv_evaluate, _stamp(cases, "drv_evaluate"))
     if not q: repo_test_events(ctx, ['evaluate'])
     ctx.validate()
@@ -253,6 +275,7 @@ def run_c06(ctx):
     rc = random_cases(ctx, 300 if q else 4000, REGIONS + ["prefixed_compound"], max_box=128, prefix=0.2)
     for c in rc: c["max_interps"] = 12 if q else 40
     rc += [dict(c, max_interps=12) for c in narrow_min_cases(ctx)]
+    rc += [dict(c, max_interps=20) for c in range_twins(ctx)]
     cases += rc
     ctx.pmap(drivers.drv_partial, _stamp(cases, "drv_partial"))
     if not q: repo_test_events(ctx, ['evaluate'])
@@ -271,6 +294,11 @@ def run_c07(ctx):
     rc = random_cases(ctx, 250 if q else 3000, REGIONS + ["prefixed_compound"], max_box=64, prefix=0.2)
     for c in rc: c.update(max_ids=3, n_dicts=8 if q else 24)
     cases += rc
+    # integer leaves whose range contains both -1 and -2 (the same model object is evaluated for both)
+    t2, a_, b_ = LEAF("t", -2, 1), LEAF("a"), LEAF("b")
+    for r_ in (_R("AtLeast", t2, a_, b_, v=-1, s=1, id="N"), _R("All", a_, _R("Any", b_, t2, id="B"), id="A"), _R("AtLeast", a_, t2, v=0, s=-1, id="M"),
+               _R("Xor", a_, b_, t2), _R("Imply", _R("AtLeast", t2, v=-1, s=1), a_)):
+        cases.append({"recipe": r_, "src": "handmade", "max_ids": 2, "n_dicts": 10})
     ctx.pmap(drivers.drv_assume, _stamp(cases, "drv_assume"))
     if not q: repo_test_events(ctx, ['assume'])
     ctx.validate()
@@ -403,6 +431,12 @@ def serial_cases(ctx, inv, small=False):
             hm.append(dict(_cc(grp, LEAF(n1), _R("All", LEAF(n2), LEAF(n3), id="BC")), d=n1))
             hm.append(_cc("Cfg", dict(_cc(grp, LEAF(n1), _R("All", LEAF(n2), LEAF(n3), id="BC"), id="X"), d=n1), id="cfg"))
             hm.append(_cc("Cfg", dict(_cc(grp, LEAF(n1), _R("Any", LEAF(n2), LEAF(n3))), d=n1), _R("Imply", LEAF(n4), _R("Any", LEAF(n2), LEAF(n3)))))
+    # implications whose consequence id sorts before the condition id (upper case / digit ids against generated VAR.. ids, D before C)
+    for cons in (LEAF("C"), LEAF("A"), LEAF("7up"), _R("All", a, c, id="C"), dict(_cc("ccXor", LEAF("B"), LEAF("A2"), id="C0"), d="B")):
+        for cond in (_R("Any", a, b), _R("Any", a, b, id="D"), _R("All", a, _R("Any", b, c)), LEAF("z")):
+            hm.append(_R("Imply", cond, cons))
+            hm.append(_R("Imply", cond, cons, id="R"))
+            hm.append(_cc("Cfg", _R("Imply", cond, cons, id="R"), dict(_cc("ccAny", a, b, c, id="X"), d="a"), id="cfg"))
     cases += [{"recipe": r_, "src": "handmade"} for r_ in hm]
     ctx.region("explicit_id_like_generated")
     return cases
@@ -545,6 +579,11 @@ def run_c12(ctx):
         rows = [[rng.randint(-50, 50)] + [rng.choice([-2, -1, 0, 1, 1, 3]) for _ in range(nc)] for _ in range(rng.randint(1, 3))]
         cases.append({"rows": rows, "bounds": bounds, "src": "random", "k": k, "bounds_dtype": bd, "ids": ["w%d" % j for j in range(nc)]})
         ctx.region("narrow_bounds_table")
+    for k in range(40 if q else 400):
+        nc = rng.randint(1, 4)
+        rows = [[rng.randint(-2, 3)] + [rng.choice([-2, -1, 0, 1, 1, 2]) for _ in range(nc)] for _ in range(rng.randint(1, 3))]
+        cases.append({"rows": rows, "bounds": [[0, 1]] * nc, "src": "random", "k": k, "default_vars": True})
+    ctx.region("default_variables")
     ctx.pmap(drivers.drv_tighten, _stamp(cases, "drv_tighten"))
     ctx.validate()
 
@@ -706,6 +745,12 @@ def cfg_cases(ctx, inv, quick_prios=3):
     for lo, hi in ((1, 3), (-2, 1), (2, 2)):
         rr = _cc("Cfg", _R("AtLeast", LEAF("n", lo, hi), LEAF("b"), id="R", v=2, s=1), _cc("ccAny", LEAF("a"), LEAF("b"), LEAF("c"), d="a", id="X"), id="cfg")
         cases.append({"recipe": rr, "src": "handmade", "prios_list": [[{}], [{"b": 1}], [{"c": 2, "n": 1}, {"a": -1}], [{"X": 1}]]})
+    # several defaults, the first of them not the alphabetically smallest
+    for grp in ("ccAny", "ccXor"):
+        for d1, d2_ in (("c", "a"), ("b", "a"), ("c", "b")):
+            rr = _cc("Cfg", dict(_cc(grp, LEAF("a"), LEAF("b"), LEAF("c"), id="X"), d=d1, d2=d2_), _R("Any", LEAF("x"), LEAF("y"), id="J"), id="cfg")
+            cases.append({"recipe": rr, "src": "handmade", "prios_list": [[{}], [{"x": 1}], [{"a": 1}, {"c": -1}]]})
+            cases.append({"recipe": rr, "src": "handmade", "via": "json", "prios_list": [[{}], [{"b": 1}]]})
     # the only other alternative of a defaulted group is a sub-proposition that another rule uses as well
     for g in (_R("All", LEAF("p"), LEAF("q"), LEAF("r"), id="G"), _R("Any", LEAF("p"), LEAF("q"), id="G"), _R("All", LEAF("p"), LEAF("q"))):
         for grp in ("ccAny", "ccXor"):
@@ -817,7 +862,8 @@ def api_catalog():
     CfgG = _cc("Cfg", _cc("ccXor", x, y, d="x"), _R("Imply", _R("All", x), LEAF("z")))
     # degenerate parts: a leaf fixed by its bounds, a vacuous threshold ("at most 2 of p, q"), a pre-fixed sub-proposition
     M3 = _R("All", _R("Any", a, LEAF("k", 1, 1), id="B2"), _R("AtMost", LEAF("p"), LEAF("q"), id="V", v=2), dict(_R("Any", b, c, id="F"), f=1), id="A3")
-    return {"M3": M3, "M1": M1, "M2": M2, "G1": G1, "CfgD": CfgD, "CfgP": CfgP, "Cfg3": Cfg3, "Cfg4": Cfg4, "CfgG": CfgG}
+    M4 = _R("All", dict(_R("Any", a, b, id="B"), f=1), _R("Imply", dict(_R("All", a, c, id="K"), f=0), b, id="I"), id="A4")
+    return {"M4": M4, "M3": M3, "M1": M1, "M2": M2, "G1": G1, "CfgD": CfgD, "CfgP": CfgP, "Cfg3": Cfg3, "Cfg4": Cfg4, "CfgG": CfgG}
 
 RULES = lambda: [_R("Any", LEAF("p"), LEAF("q"), id="P1"), _cc("ccAny", LEAF("p"), LEAF("q"), LEAF("a"), id="P2", d="p"),
                  _cc("ccXor", LEAF("r"), LEAF("s"), d="r"), _R("Imply", _R("All", LEAF("a")), LEAF("q"), id="P3"),
@@ -933,7 +979,7 @@ def run_c09(ctx):
     ctx.pmap(drivers.drv_derive_poke, _stamp(dp, "drv_derive_poke"))
     ctx.region("result_poked_source_checked")
     cat = api_catalog()
-    pairs = [(cat["M1"], cat["CfgD"]), (cat["CfgD"], cat["CfgP"]), (cat["Cfg3"], cat["Cfg4"]), (cat["G1"], cat["M2"]), (cat["M3"], cat["M3"])]
+    pairs = [(cat["M1"], cat["CfgD"]), (cat["CfgD"], cat["CfgP"]), (cat["Cfg3"], cat["Cfg4"]), (cat["G1"], cat["M2"]), (cat["M3"], cat["M3"]), (cat["M4"], cat["M1"])]
     if not q: pairs += [(cat["CfgP"], cat["CfgD"]), (cat["Cfg4"], cat["Cfg3"]), (cat["CfgG"], cat["M1"]), (cat["M1"], cat["M1"])]
     rules = RULES()[:2] if q else RULES()[:4]
     # the intended design is pure; the as-implemented machine (named deviation) is not: TLC finds the purity counterexample itself
@@ -976,14 +1022,14 @@ def run_c18(ctx):
     # top-level ITEMS (an integer one too) next to a rule; a configurator made of one anonymous All
     CfgI = _cc("Cfg", LEAF("n", -2, 3), LEAF("c"), _R("Any", a, b, id="X"), id="cfgi")
     CfgA = _cc("Cfg", _R("All", _R("Any", a, b), _R("Any", c, LEAF("d"))))
-    pairs = [(cat["CfgD"], cat["CfgG"]), (CfgN, cat["CfgD"]), (CfgI, CfgA)]
+    pairs = [(cat["CfgD"], cat["CfgG"]), (CfgN, cat["CfgD"]), (CfgI, CfgA), (cat["CfgD"], cat["CfgD"])]      # the last: two extensions of one original
     R_ = RULES()
     rules = (R_ if not q else R_[:3] + [R_[4]]) + [S_, _R("All", S_, LEAF("q"), id="T")]      # R_[4] re-uses the id of an existing top-level rule
     rules += [_R("Any", LEAF("p"), LEAF("q"), id="n"), _R("Any", LEAF("p"), LEAF("r"), id="c")]      # rules named like top-level items
     rules += [_R("Xor", LEAF("p"), LEAF("q"), id="P1"), _R("All", LEAF("p"), LEAF("q"), id="P1")]      # alternative variants of the rule named P1
     rules += [_R("AtMost", LEAF("p"), LEAF("q"), v=2, id="T1"), _R("AtLeast", LEAF("p"), LEAF("r"), v=0, s=1, id="T2"),   # rules that always hold
               _R("AtMost", LEAF("a"), LEAF("b"), v=3)]
-    states = api_histories(ctx, "API_add", pairs, ["add", "cfg_poly"] if q else ["add", "cfg_poly", "select"], 3, rules)
+    states = api_histories(ctx, "API_add", pairs, ["add", "cfg_poly", "select"], 3, rules)
     cases = history_cases(ctx, states, [cat["CfgD"], cat["CfgG"], CfgN, CfgI, CfgA])
     cases = [c for c in cases if any(x["op"] == "add" for x in c["calls"])]
     if q and len(cases) > 2500:
